@@ -39,6 +39,13 @@ func runC03(r *an.Run) {
 	c01AllMatchesReplaced(r)
 	relabel(r, "R2-every-match-replaced", "R8-every-site-rewritten")
 	candidateHandedDown(r, "R9-captured-code-is-the-candidate-itself")
+	// every '+' line reaches the '+' pattern, whole: the splitter withholds a line only when its first
+	// non-space byte is '#', and splitPatch routes '+' lines (minus the marker byte) and context lines to the
+	// plus version
+	c13CommentsSkipped(r)
+	relabel(r, "R1-comment-lines-never-reach-the-parsers", "R10-every-plus-line-reaches-the-plus-pattern")
+	c01SplitPatch(r)
+	relabel(r, "R9-minus-plus-split", "R10-every-plus-line-reaches-the-plus-pattern")
 }
 
 func c03Siblings(r *an.Run) {
